@@ -21,12 +21,55 @@ def exact_float_vec(v):
     return fl, [F(x) for x in fl]
 
 
-def gen_system(rng):
+def signed_K(rng, nf, kk):
+    """adaptation matrices with negative entries: a perturbed identity, or opponent coding (every channel is inhibited by its
+    neighbours); invertible, so that the gamut keeps its dimension"""
+    for _ in range(20):
+        if kk == "matrix_signed":
+            K = np.eye(nf) + dyadic(rng, -0.5, 0.5, 2, size=(nf, nf)) * (1 - np.eye(nf))
+        else:
+            K = np.eye(nf)
+            for i in range(nf - 1):
+                K[i, i + 1] = -float(dyadic(rng, 0.25, 1, 2)); K[i + 1, i] = -float(dyadic(rng, 0.25, 1, 2))
+        if abs(np.linalg.det(K)) > 0.05:
+            return K
+    return np.eye(nf) - 0.25 * (1 - np.eye(nf)) / nf
+
+
+def nullvec(rows, n):
+    """exact: the one-dimensional null space of the rational rows (vectors of length n), or None if it is not one-dimensional"""
+    M = [list(r) for r in rows]
+    piv = []
+    r = 0
+    for col in range(n):
+        pr = next((i for i in range(r, len(M)) if M[i][col] != 0), None)
+        if pr is None:
+            continue
+        M[r], M[pr] = M[pr], M[r]
+        M[r] = [v / M[r][col] for v in M[r]]
+        for i in range(len(M)):
+            if i != r and M[i][col] != 0:
+                f = M[i][col]
+                M[i] = [a - f * b for a, b in zip(M[i], M[r])]
+        piv.append(col); r += 1
+        if r == len(M):
+            break
+    free = [c_ for c_ in range(n) if c_ not in piv]
+    if len(free) != 1:
+        return None
+    h = [Fraction(0)] * n
+    h[free[0]] = Fraction(1)
+    for i, col in enumerate(piv):
+        h[col] = -M[i][free[0]]
+    return h
+
+
+def gen_system(rng, si=None):
     nf = int(rng.integers(2, 6)); ns = int(rng.integers(1, 9))
     A = gen_A(rng, nf, ns, lo=0.25, hi=4.0, bits=2, zeros=bool(rng.integers(3) == 0))
-    kk, K = gen_K(rng, nf, kinds=("none", "scalar", "vector", "matrix", "matrix_signed"))
-    if kk == "matrix_signed":
-        K = np.eye(nf) + dyadic(rng, -0.5, 0.5, 2, size=(nf, nf)) * (1 - np.eye(nf))
+    kk, K = gen_K(rng, nf, kinds=("none", "scalar", "vector", "matrix", "matrix_signed", "matrix_opponent"))
+    if kk in ("matrix_signed", "matrix_opponent"):
+        K = signed_K(rng, nf, kk)
     bk, base = gen_baseline(rng, nf)
     Ak = "dyadic"
     if rng.integers(6) == 0:
@@ -35,6 +78,20 @@ def gen_system(rng):
         if np.linalg.matrix_rank(Aw) == min(nf, ns):
             A, Ak = Aw, "whole"
     ubk = str(rng.choice(["finite", "finite", "whole", "inf"]))
+    # unbounded sources x adaptation with negative entries (the cone's apex, the image of lb, is then not the coordinate-wise
+    # or lexicographic minimum of the corner images) is a rare product of two choices: a deterministic share of the systems
+    # (every 10th) has it, with at least as many sources as needed for a pointed full-dimensional cone, and half of the other
+    # unbounded systems get a signed matrix as well
+    forced = si is not None and si % 10 == 0
+    if forced:
+        ubk = "inf"
+        if si % 20 == 0 and ns > nf:
+            ns = nf; A = A[:, :nf]
+            if np.linalg.matrix_rank(A) < nf:
+                A = A + np.eye(nf)
+    if ubk == "inf" and (forced or rng.integers(2) == 0):
+        kk = "matrix_signed" if rng.integers(2) else "matrix_opponent"
+        K = signed_K(rng, nf, kk)
     lbk = str(rng.choice(["zero", "zero", "zero", "pos", "pos", "whole"]))
     # whole-number bounds (lb = 0 or [0, 1, 2], ub = [1, 3, 2]) are the ones a caller writes as integers
     lb = np.zeros(ns) if lbk == "zero" else (dyadic(rng, 0.0625, 0.25, 4, size=ns) if lbk == "pos" else dyadic(rng, 0, 2, 0, size=ns))
@@ -63,7 +120,10 @@ def run(R):
     R.rule = ("systems 2-5 receptors x 1-8 sources, lb zero/positive, ub finite/infinite, K none/scalar/vector/matrix (also with "
               "negative entries), baseline 0/scalar/vector; targets constructed WITH exact certificates: interior and "
               "near-boundary-inside (product weights of the corners, verified by inHullCert), vertices, near-boundary-outside "
-              "and far outside (supporting hyperplane from a rationalised qhull normal, verified by sepCert); plain, relative and "
+              "and far outside (supporting hyperplane from a rationalised qhull normal, verified by sepCert); unbounded sources with a "
+              "full-dimensional cone also get targets just outside / far outside every sampled facet of the cone, at the apex and along the "
+              "facet (exact rational facet normal, sepCert against the apex value); adaptation matrices with negative entries (perturbed "
+              "identity, opponent coding) -- every 10th system is unbounded with such a matrix, half of the other unbounded ones too; plain, relative and "
               "L1-normalised membership via in_hull_from_A and ReceptorEstimator.in_hull / in_gamut, batched and as a single 1-D target. "
               "Whole-number A / lb / ub variants; A, filters, lb, ub, K, baseline and targets are handed over as float or (whole numbers) "
               "integer arrays, Fortran-ordered, strided views or lists (as_given); the model gets the values. Every call is checked for the "
@@ -79,7 +139,7 @@ def run(R):
         if not R.want(k):
             continue
         rng = R.rng(1, si)
-        S = gen_system(rng)
+        S = gen_system(rng, si)
         R.driver.ask("P" + k, "getP", S["ns"], K_text(S["K"]), ms(S["A"]), vs(np.atleast_1d(S["baseline"])), vs(S["lb"]), ub_text(S["ub"]))
         work.append((k, rng, S))
     R.driver.run()
@@ -131,6 +191,51 @@ def run(R):
             rank = int(np.sum(s > 1e-9 * ext))
             if rank < nf:
                 normals = [Vt[-1]]
+        if (not finite) and fulldim:
+            # unbounded sources: the gamut is the cone p0 + cone(columns of A') with apex p0 = image of lb. Its facets are the
+            # facets of the corner images' hull through p0. For each, an EXACT rational normal h (null vector of the columns lying
+            # in the facet; h.a <= 0 for every column a, verified exactly) gives targets base + mu*h just outside / far outside,
+            # based at the apex or at a point of the facet. Certificate: sepCert on the corner images with c = h.p0, i.e.
+            # h.p <= h.p0 for all corner images p and h.b > h.p0 -- by cone_path_sound every point of the gamut is
+            # p0 + sum w_k (p_k - p0) with w >= 0, hence has h.y <= h.p0: b is not reproducible.
+            p0 = predictF(lbF)
+            cols = [[row[j] for row in Ap] for j in range(ns)]
+            colsf = np.array([[float(v) for v in cl] for cl in cols])
+            try:
+                eqs = ConvexHull(Pf).equations
+            except Exception:  # noqa: BLE001
+                eqs = np.zeros((0, nf + 1))
+            p0f = np.array([float(v) for v in p0])
+            thru = [e for e in eqs if abs(float(e[:-1] @ p0f + e[-1])) <= 1e-9 * ext]
+            R.count("unbounded-cone:%s" % ("pointed(apex on the hull of the corner images)" if thru else "apex inside (no supporting hyperplane)"))
+            seen = set()
+            for e in [thru[i] for i in rng.permutation(len(thru))[:3]]:
+                nrm = e[:-1]
+                J = [j for j in range(ns) if abs(float(nrm @ colsf[j])) <= 1e-9 * (np.linalg.norm(colsf[j]) + 1e-300)]
+                h = nullvec([cols[j] for j in J], nf) if J else None
+                if h is None:
+                    continue
+                if sum(float(a) * b for a, b in zip(h, nrm)) < 0:
+                    h = [-v for v in h]
+                mx = max(abs(v) for v in h)
+                h = [v / mx for v in h]
+                if tuple(h) in seen or any(fdot(h, cl) > 0 for cl in cols):
+                    continue
+                seen.add(tuple(h))
+                c = fdot(h, p0)
+                hh = fdot(h, h)
+                for kind, mu, onfacet in (("near_out", 1e-5 * ext, False), ("near_out", 1e-5 * ext, True), ("far_out", 2.0 * ext, True)):
+                    base = list(p0)
+                    if onfacet:
+                        for j in J:
+                            sj = F(float(dyadic(rng, 0, 2, 2)))
+                            base = [bv + sj * cv for bv, cv in zip(base, cols[j])]
+                    muF = F(float(mu)) / F(float(np.sqrt(float(hh))))
+                    bf, be = exact_float_vec([p + muF * hv for p, hv in zip(base, h)])
+                    margin = fdot(h, be) - c
+                    if margin <= 0:
+                        continue
+                    targets.append(dict(kind=kind, b=bf, be=be, expect=False, cert=("sep", h, c), dist=float(margin) / float(np.sqrt(float(hh))), cone=True))
         for hn in normals:
             h = [F(float(np.round(v * 2 ** 20) / 2 ** 20)) for v in hn]
             if all(v == 0 for v in h):
@@ -364,4 +469,6 @@ def run(R):
             elif not np.all(outn):
                 R.failB(dict(c, targets_normalized=Bn, impl=outn, normalized_paths=npaths), "captures of in-bound intensities (or positive multiples of them) were reported outside the chromatic gamut",
                         "C03:normalized:false-negative:" + "+".join(npaths))
-        R.case(c, (k,) if (fulldim and finite and has_in and has_out) else None, sample=(fulldim and finite and has_out))
+        if not finite:
+            R.count("unbounded:K=%s:%s" % (S["K_kind"], "certified in+out" if (has_in and has_out) else ("certified in" if has_in else "none")))
+        R.case(c, (k,) if (fulldim and has_in and has_out) else None, sample=(fulldim and finite and has_out))
